@@ -51,6 +51,12 @@ def cases(res):
     add(5, 130, 90, "noise", {"film_grain_denoise_strength": 50}, bits=10)
     add(5, 128, 96, "screen", {"screen_content_mode": 1, "intrabc_mode": 1, "palette_level": 1})
     add(5, 120, 72, "screen", {"screen_content_mode": 1, "palette_level": 6, "enc_mode": 6})
+    # the same tools on pictures taller than wide (and not multiples of 32): per-picture buffers sized from one dimension and walked
+    # with the other only show when height > width
+    add(4, 64, 128, "noise", {"film_grain_denoise_strength": 8, "qp": 30})
+    add(4, 100, 200, "noise", {"film_grain_denoise_strength": 30}, bits=10)
+    add(4, 100, 132, "motion", {"superres_mode": 1, "superres_denom": 12, "superres_kf_denom": 16})
+    add(4, 72, 120, "screen", {"screen_content_mode": 1, "intrabc_mode": 1, "palette_level": 1})
     add(5, 96, 72, "motion", {}, bits=10)
     add(5, 96, 72, "extreme", {"enable_hbd_mode_decision": 2}, bits=10)
     add(5, 96, 72, "motion", {"is_16bit_pipeline": 1})
